@@ -152,6 +152,8 @@ m("c11-iload-rt-not-normalised", ["C11"], C, "        self._params[\"iis\"] = ab
 m("c11-pmux-rs-abs-overwritten", ["C11"], C, "        if not isinstance(rs, list):\n            rs = abs(rs)\n        elif not all(isinstance(e, (int, float)) for e in rs):\n            raise ValueError(\"rs values must be numbers!\")\n        self._params[\"rs\"] = rs\n        if isinstance(ig, dict):",
   "        if not isinstance(rs, list):\n            self._params[\"rs\"] = abs(rs)\n        elif not all(isinstance(e, (int, float)) for e in rs):\n            raise ValueError(\"rs values must be numbers!\")\n        self._params[\"rs\"] = rs\n        if isinstance(ig, dict):")
 m("c11-limits-length-unchecked", ["C11"], C, "                if len(limits[key]) != 2 or not (", "                if len(limits[key]) < 2 or not (")
+m("c11-table-rank-check-dropped", ["C11"], C, "        if arr.ndim < dim or not np.issubdtype(arr.dtype, np.number):", "        if arr.ndim < 0:")
+m("c11-table-shape-by-count", ["C11"], C, "    if vsh[0] != zsh[0] or ish[0] != zsh[1]:", "    if np.size(idata[z]) != vsh[0] * ish[0]:")
 m("c11-io-monotonic-nonstrict", ["C11"], C, "    if not np.all(np.diff(idata[\"io\"]) > 0):", "    if not np.all(np.diff(idata[\"io\"]) >= 0):")
 
 # ---- C12 -------------------------------------------------------------------------------------
